@@ -7,7 +7,7 @@ cd /verif
 PWSA_REPO=$WT PYTHONPATH=/verif /venv/bin/python - <<'PY'
 from pwsa.model import Repo, AnalysisError
 from pwsa.rules import load_all, RULES
-from pwsa.report import load_known, known_match
+from pwsa.report import load_known, known_match, partition_known
 load_all(); r = Repo(); known = load_known()["known"]
 for name, f in RULES.items():
     try:
@@ -16,9 +16,10 @@ for name, f in RULES.items():
         print("  ERROR", name, str(e)[:200]); continue
     except Exception as e:
         print("  CRASH", name, type(e).__name__, str(e)[:200]); continue
+    _, unl = partition_known([o for o in obs if o.status == "violation"], known, lambda o: o.props)
+    for o in unl:
+        print("  VIOL ", o.props, o.text()[:260])
     for o in obs:
-        if o.status == "violation" and not any(known_match(p, o, known) for p in o.props):
-            print("  VIOL ", o.props, o.text()[:260])
         if o.status == "unanalysed":
             print("  UNAN ", o.rule, o.where, o.key, o.msg[:120])
 PY
